@@ -42,9 +42,10 @@ def phys_spectrum(rng):
     return w, v
 
 
-def in_unit(w, v, unit):
+def in_unit(w, v, unit, vu=None):
     f = Fr(10) ** (-9 - sp.EXP[unit])       # nm -> unit
-    return sp.spec_json(unit, None, [x * f for x in w], v)
+    # a density (per unit wavelength) given per nanometre is f times smaller per `unit`... i.e. v / f
+    return sp.spec_json(unit, vu, [x * f for x in w], [x / f for x in v] if vu else v)
 
 
 def tlc_unit(u):
@@ -54,7 +55,9 @@ def tlc_unit(u):
     return 'nm' if u == 'm' else u
 
 
-def make_real(lentil, w, v, unit):
+def make_real(lentil, w, v, unit, vu=None):
+    if vu:
+        return sp.real_spectrum(lentil, in_unit(w, v, unit, vu))
     f = 10.0 ** (-9 - sp.EXP[unit])
     wave = np.array([float(x) for x in w]) * f if unit != 'nm' else np.array([float(x) for x in w])
     if all(x.denominator == 1 for x in v):
@@ -86,7 +89,12 @@ def gen(tier, seed):
         op = rng.choice(list(OPS))
         how = rng.choice(('min', 'min', 'left', 'right', 'float'))
         fill = Fr(1) if op == 'div' else rng.choice((Fr(0), Fr(0), Fr(1), Fr(5, 2)))
-        cases.append({'k': 'binop', 'w1': w1, 'v1': v1, 'w2': w2, 'v2': v2, 'u1': u1, 'u2': u2, 'op': op, 'how': how, 'fill': fill})
+        # a unitless transmission times a flux density (either order): only for products, and not in metres (the specification
+        # evaluates metre operands in nanometres, which would rescale a density)
+        vus = rng.choice(((None, None), (None, None), (None, 'photlam'), ('photlam', None))) if (op == 'mul' and 'm' not in (u1, u2)) else (None, None)
+        if vus != (None, None):
+            fill = Fr(0)            # (a non-zero fill is a number in the result's own units: it cannot be the same density in two units)
+        cases.append({'k': 'binop', 'w1': w1, 'v1': v1, 'w2': w2, 'v2': v2, 'u1': u1, 'u2': u2, 'op': op, 'how': how, 'fill': fill, 'vus': vus})
     return cases
 
 
@@ -97,9 +105,10 @@ def run(ctx):
     reals = {}
     skipped = 0
     for c in raw:
-        s1j = in_unit(c['w1'], c['v1'], tlc_unit(c['u1']))
-        s2j = in_unit(c['w2'], c['v2'], tlc_unit(c['u2']))
-        s1, s2 = make_real(lentil, c['w1'], c['v1'], c['u1']), make_real(lentil, c['w2'], c['v2'], c['u2'])
+        vu1, vu2 = c.get('vus', (None, None))
+        s1j = in_unit(c['w1'], c['v1'], tlc_unit(c['u1']), vu1)
+        s2j = in_unit(c['w2'], c['v2'], tlc_unit(c['u2']), vu2)
+        s1, s2 = make_real(lentil, c['w1'], c['v1'], c['u1'], vu1), make_real(lentil, c['w2'], c['v2'], c['u2'], vu2)
         wscale = 10.0 ** (sp.EXP[c['u1']] - sp.EXP[tlc_unit(c['u1'])])      # real wavelength numbers -> the specification's unit
         d1, d2 = sp.state_digest(s1), sp.state_digest(s2)
         how = c['how']
@@ -122,6 +131,7 @@ def run(ctx):
             ctx.violation(dict(sig, kind='operand-modified'), {'s1': s1j, 's2': s2j, 's1_unit_after': s1.waveunit, 's2_unit_after': s2.waveunit}, case=None)
         if r is s1 or r is s2 or np.shares_memory(r.wave, s1.wave) or np.shares_memory(r.value, s1.value):
             ctx.violation(dict(sig, kind='result-not-fresh'), {}, case=None)
+        sig['value_units'] = 'mixed' if vu1 != vu2 else 'none'
         if r.waveunit != c['u1']:
             ctx.violation(dict(sig, kind='result-unit'), {'expected': c['u1'], 'observed': r.waveunit}, case=None)
         num = len(r.wave) - 1
@@ -144,7 +154,7 @@ def run(ctx):
                 continue
             f = 10.0 ** (sp.EXP[c['u2']] - sp.EXP[c['u1']])         # r2 is expressed in u2
             if len(r2.wave) != len(r.wave) or not np.allclose(r2.wave * f, r.wave, rtol=1e-9, atol=0) or \
-                    not np.allclose(r2.value, r.value, rtol=1e-9, atol=1e-12):
+                    not np.allclose(r2.value / (f if r2.valueunit else 1.0), r.value, rtol=1e-9, atol=1e-12) or r2.valueunit != r.valueunit:
                 # exact ties may differ between the two orders only at range ends; judged against the spec below instead
                 reals[cid] = reals[cid] + (r2,)
     exp, res = eval_cases('MC_Spectrum', cases, nparts=12, timeout=1500)
@@ -161,6 +171,11 @@ def run(ctx):
         ew = np.array([float(sp.rf(x)) for x in e['w']])
         ev = np.array([float(sp.rf(x)) for x in e['v']])
         ties = np.array(e['ties'], dtype=bool)
+        exp_vu = None if e['vu'] == 'none' else e['vu']
+        if r.valueunit != exp_vu:
+            ctx.violation(dict(sig, kind='result-value-unit'), {'expected': exp_vu, 'observed': r.valueunit, 'left': c.get('vus', (None, None))[0], 'right': c.get('vus', (None, None))[1]},
+                          case={'case': cases[cid]})
+            continue
         if not np.allclose(r.wave * wscale, ew, rtol=1e-12, atol=0):
             ctx.violation(dict(sig, kind='grid'), {'expected': ew, 'observed': r.wave * wscale}, case={'case': cases[cid]})
             continue
@@ -183,7 +198,8 @@ def run(ctx):
                 ctx.skip('commutativity: the two orders rounded the number of grid points differently (inexact units)')
                 continue
             bad = len(r2.wave) != len(r.wave) or not np.allclose(r2.wave * f, r.wave, rtol=1e-9, atol=0) or \
-                not np.all(np.abs(r2.value - r.value)[mask] <= 1e-9 * (1 + np.abs(ev[mask])))
+                not np.all(np.abs(r2.value / (f if r2.valueunit else 1.0) - r.value)[mask] <= 1e-9 * (1 + np.abs(ev[mask]))) or r2.valueunit != r.valueunit
+            # (a density per unit of u2 is f times the density per unit of u1: the two orders describe the same spectrum)
             if bad:
                 ctx.violation(dict(sig, kind='not-commutative'), {'s1': cases[cid]['s1'], 's2': cases[cid]['s2']}, case={'case': cases[cid]})
     # scalars and equal-length vectors act element-wise on the unchanged grid; pow with a scalar
@@ -202,8 +218,20 @@ def run(ctx):
             r = getattr(s, name)(other)
             ctx.case(('scalar', name, u, str(w)), nontrivial=True)
             if not (np.array_equal(r.wave, s.wave) and np.allclose(r.value, expect, rtol=1e-12) and r.waveunit == u and r is not s
-                    and not np.shares_memory(r.value, s.value)):
+                    and not np.shares_memory(r.value, s.value) and not np.shares_memory(r.wave, s.wave)):
                 ctx.violation({'kind': 'scalar-or-vector-operand', 'op': name}, {'spectrum': sj, 'other': other}, case=None)
+        # a scalar is a scalar whatever its numeric type (numpy integers and single-precision floats as read from a file, booleans)
+        for kk in (np.int64(2), np.int32(3), np.float32(0.5), np.uint8(2), True, np.bool_(True)):
+            for name, fn in (('add', np.add), ('multiply', np.multiply), ('subtract', np.subtract), ('divide', np.divide)):
+                ctx.case(('scalar-type', name, type(kk).__name__, u))
+                try:
+                    r = getattr(s, name)(kk)
+                    ok = np.array_equal(r.wave, s.wave) and np.allclose(r.value, fn(vals, float(kk)), rtol=1e-6) and r.waveunit == u
+                    err = None
+                except Exception as ex:
+                    ok, err = False, repr(ex)[:160]
+                if not ok:
+                    ctx.violation({'kind': 'scalar-operand-type', 'op': name, 'scalar_type': type(kk).__name__}, {'spectrum': sj, 'error': err}, case=None)
         # addition and multiplication are commutative - also written with the scalar on the left (python and numpy scalars)
         for sym, left, expect in (('+', lambda a: a + s, lambda a: vals + a), ('*', lambda a: a * s, lambda a: vals * a)):
             for kk in (k, np.float64(k), int(k) if float(k).is_integer() else k):
